@@ -95,18 +95,23 @@ def run_case(case: dict) -> dict:
         if case.get("integrate"):
             from mxlpy import Simulator
 
-            sim = Simulator(model)
-            sim.simulate(0.25, steps=5)
-            res = sim.get_result().value
-            if not isinstance(res, Exception):
-                # result views are model queries too (time-course forms)
-                _ = res.fluxes
+            try:
+                with core.time_limit(5):  # random polynomial right-hand sides may blow up; the budget is not a verdict
+                    sim = Simulator(model)
+                    sim.simulate(0.25, steps=5)
+                    res = sim.get_result().value
+                    if not isinstance(res, Exception):
+                        # result views are model queries too (time-course forms)
+                        _ = res.fluxes
+            except core.TimeLimit:
+                counters_extra = 1
     except Exception as e:  # noqa: BLE001
         viols.append(core.viol("well-formed model raised", None, error=repr(e)[:500], spec=spec))
     for w in ct.WITNESS[:5]:
         viols.append(core.viol(f"{w['where']}: {w['what']}", None, witness=w, spec=spec))
     counters = dict(ct.COUNT)
     counters["cases_with_integration"] = int(bool(case.get("integrate")))
+    counters["integration_budget_exhausted"] = int("counters_extra" in locals())
     for k, v in feats.items():
         counters[f"feature:{k}"] = int(v)
     ct.unregister(model)
